@@ -43,7 +43,7 @@ Proof. repeat split; reflexivity. Qed.
 (* a synthesised reply: NODATA with SOA (3600, 60) + AD, A 192.0.9.1 and 10.0.0.1 under the WKP *)
 Definition ex_down : msg := mk_msg false 1 0 true (Some []) [] [Some (3600, 60)].
 Example ex_synth :
-  let x := serve cur ad_witness_cf ad_witness_q (Some (ex_down, 0)) false (QResp ttl_witness_a) in
+  let x := serve cur ad_witness_cf ad_witness_q (Some (ex_down, 0)) false (QResp ttl_witness_a) None in
   x_path x = PSynth /\ soa_positive ex_down
   /\ x_reply x = Some (mk_reply false 0 false [4] [RAAAA (bs "h.ex.t.") 60 [0; 100; 255; 155; 0; 0; 0; 0; 0; 0; 0; 0; 192; 0; 9; 1]])
   /\ gates_open (compile ad_witness_cf) ad_witness_q = true
@@ -52,18 +52,18 @@ Proof. repeat split; try reflexivity; cbn; lia. Qed.
 
 (* never over a failure: SERVFAIL + EDE 6 (DNSSEC Bogus), NXDOMAIN, cached failure marker *)
 Example ex_no_synth_over_failure :
-  x_path (serve cur ad_witness_cf ad_witness_q (Some (mk_msg false 1 2 false (Some [6]) [] [], 0)) false (QResp ttl_witness_a)) = PPass
-  /\ x_path (serve cur ad_witness_cf ad_witness_q (Some (mk_msg false 1 3 false (Some []) [] [], 0)) false (QResp ttl_witness_a)) = PPass
-  /\ x_path (serve cur ad_witness_cf ad_witness_q (Some (mk_msg false 1 2 false None [] [], 1)) false (QResp ttl_witness_a)) = PPass
-  /\ x_aq (serve cur ad_witness_cf ad_witness_q (Some (mk_msg false 1 2 false (Some [13]) [] [], 0)) false (QResp ttl_witness_a)) = false
-  /\ x_path (serve cur ad_witness_cf ad_witness_q (Some (mk_msg false 1 2 false (Some [22]) [] [], 0)) false (QResp ttl_witness_a)) = PSynth.
+  x_path (serve cur ad_witness_cf ad_witness_q (Some (mk_msg false 1 2 false (Some [6]) [] [], 0)) false (QResp ttl_witness_a) None) = PPass
+  /\ x_path (serve cur ad_witness_cf ad_witness_q (Some (mk_msg false 1 3 false (Some []) [] [], 0)) false (QResp ttl_witness_a) None) = PPass
+  /\ x_path (serve cur ad_witness_cf ad_witness_q (Some (mk_msg false 1 2 false None [] [], 1)) false (QResp ttl_witness_a) None) = PPass
+  /\ x_aq (serve cur ad_witness_cf ad_witness_q (Some (mk_msg false 1 2 false (Some [13]) [] [], 0)) false (QResp ttl_witness_a) None) = false
+  /\ x_path (serve cur ad_witness_cf ad_witness_q (Some (mk_msg false 1 2 false (Some [22]) [] [], 0)) false (QResp ttl_witness_a) None) = PSynth.
 Proof. repeat split; reflexivity. Qed.
 
 (* an AAAA-filtered reply: one native and one IPv4-mapped AAAA, AD set upstream *)
 Example ex_filtered :
   let down := mk_msg false 1 0 true (Some [])
                 [RAAAA (bs "h.ex.t.") 60 ([32; 1; 13; 184] ++ zeros 11 ++ [5]); RAAAA (bs "h.ex.t.") 60 (v4in6_prefix ++ [1; 2; 3; 4])] [] in
-  let x := serve cur ad_witness_cf ad_witness_q (Some (down, 0)) false (QResp ttl_witness_a) in
+  let x := serve cur ad_witness_cf ad_witness_q (Some (down, 0)) false (QResp ttl_witness_a) None in
   x_path x = PPassFiltered
   /\ x_reply x = Some (mk_reply false 0 false [4] [RAAAA (bs "h.ex.t.") 60 ([32; 1; 13; 184] ++ zeros 11 ++ [5])])
   /\ x_aq x = false.
@@ -90,18 +90,34 @@ Example ex_old_extract_embed_refuted :
 Proof. repeat split; reflexivity. Qed.
 
 Example ex_old_owner_and_ttl_refuted :
-  let x_old := serve old ad_witness_cf ad_witness_q (Some (ttl_witness_down, 0)) false (QResp ttl_witness_a) in
-  let x_now := serve cur ad_witness_cf ad_witness_q (Some (ttl_witness_down, 0)) false (QResp ttl_witness_a) in
+  let x_old := serve old ad_witness_cf ad_witness_q (Some (ttl_witness_down, 0)) false (QResp ttl_witness_a) None in
+  let x_now := serve cur ad_witness_cf ad_witness_q (Some (ttl_witness_down, 0)) false (QResp ttl_witness_a) None in
   spec_negative_ttl ttl_witness_down = 0
   /\ x_reply x_old = Some (mk_reply false 0 false [4] [RAAAA (bs "h.ex.t.") 300 [0; 100; 255; 155; 0; 0; 0; 0; 0; 0; 0; 0; 192; 0; 9; 1]])
   /\ x_reply x_now = Some (mk_reply false 0 false [4] [RAAAA (bs "h.ex.t.") 0 [0; 100; 255; 155; 0; 0; 0; 0; 0; 0; 0; 0; 192; 0; 9; 1]]).
 Proof. repeat split; reflexivity. Qed.
 
 Example ex_old_never_ad_refuted :
-  let x_old := serve old ad_witness_cf ad_witness_q (Some (ad_witness_down, 0)) false (QResp ad_witness_a) in
-  let x_now := serve cur ad_witness_cf ad_witness_q (Some (ad_witness_down, 0)) false (QResp ad_witness_a) in
+  let x_old := serve old ad_witness_cf ad_witness_q (Some (ad_witness_down, 0)) false (QResp ad_witness_a) None in
+  let x_now := serve cur ad_witness_cf ad_witness_q (Some (ad_witness_down, 0)) false (QResp ad_witness_a) None in
   x_path x_old = PFallback /\ x_reply x_old = Some (mk_reply false 0 true [] [])
   /\ x_path x_now = PFallback /\ x_reply x_now = Some (mk_reply false 0 false [4] []).
+Proof. repeat split; reflexivity. Qed.
+
+(* af44539: the request tree's bound caps the synthesised TTL and the alias
+   chain's.  SOA (3600, 60), A TTL 300, CNAME TTL 900: 60 on an unbounded tree,
+   7 when the tree ends in 7 s, 0 when its bound has passed, 60 again when the
+   bound lies beyond; the code before af44539 is the [None] column whatever
+   the tree says. *)
+Example ex_cut_bounds_ttl :
+  let ans := [RCNAME (bs "h.ex.t.") 900 (bs "c0.u."); RA (bs "c0.u.") 300 [192; 0; 9; 1]] in
+  let x cut := serve cur ad_witness_cf ad_witness_q (Some (ex_down, 0)) false (QResp (mk_msg false 1 0 false None ans [])) cut in
+  let e := [0; 100; 255; 155; 0; 0; 0; 0; 0; 0; 0; 0; 192; 0; 9; 1] in
+  x_path (x (Some 7)) = PSynth
+  /\ x_reply (x None) = Some (mk_reply false 0 false [4] [RCNAME (bs "h.ex.t.") 60 (bs "c0.u."); RAAAA (bs "c0.u.") 60 e])
+  /\ x_reply (x (Some 7)) = Some (mk_reply false 0 false [4] [RCNAME (bs "h.ex.t.") 7 (bs "c0.u."); RAAAA (bs "c0.u.") 7 e])
+  /\ x_reply (x (Some 0)) = Some (mk_reply false 0 false [4] [RCNAME (bs "h.ex.t.") 0 (bs "c0.u."); RAAAA (bs "c0.u.") 0 e])
+  /\ x_reply (x (Some 60)) = x_reply (x None) /\ x_reply (x (Some 4294967301)) = x_reply (x None).
 Proof. repeat split; reflexivity. Qed.
 
 (* a legal prefix whose host part is not zero (never produced by ParseCIDR, still handled) *)
@@ -116,7 +132,7 @@ Example ex_alias_chain :
   let ans := [RCNAME (bs "h.ex.t.") 300 (bs "c0.u."); RCNAME (bs "C0.u.") 5 (bs "c1.u."); RDNAME (bs "u.") 9 (bs "v.");
               RCNAME (bs "c1.u.") 900 (bs "c1.v."); RA (bs "c1.v.") 120 [192; 0; 9; 1]] in
   alias_chain (bs "h.ex.t.") (filter is_chain ans) (bs "c1.v.")
-  /\ x_path (serve cur ad_witness_cf ad_witness_q (Some (ex_down, 0)) false (QResp (mk_msg false 1 0 false None ans []))) = PSynth.
+  /\ x_path (serve cur ad_witness_cf ad_witness_q (Some (ex_down, 0)) false (QResp (mk_msg false 1 0 false None ans [])) None) = PSynth.
 Proof.
   split; [|reflexivity]. cbn [filter is_chain].
   apply ac_cname; [reflexivity|]. apply ac_cname; [reflexivity|]. apply ac_dname. apply ac_cname; [reflexivity|].
@@ -124,9 +140,9 @@ Proof.
 Qed.
 
 Example ex_wire :
-  x_path (serve_wire ad_witness_cf ad_witness_q (Some (ex_down, 0)) (SubWrite ttl_witness_a 0)) = PSynth
-  /\ x_path (serve_wire ad_witness_cf ad_witness_q (Some (ex_down, 0)) (SubWrite ttl_witness_a 2)) = PLocalFail
-  /\ x_path (serve_wire ad_witness_cf ad_witness_q (Some (ex_down, 0)) SubNothing) = PFallback.
+  x_path (serve_wire ad_witness_cf ad_witness_q (Some (ex_down, 0)) (SubWrite ttl_witness_a 0) None) = PSynth
+  /\ x_path (serve_wire ad_witness_cf ad_witness_q (Some (ex_down, 0)) (SubWrite ttl_witness_a 2) None) = PLocalFail
+  /\ x_path (serve_wire ad_witness_cf ad_witness_q (Some (ex_down, 0)) SubNothing None) = PFallback.
 Proof. repeat split; reflexivity. Qed.
 
 (* the byte-range hypotheses are about the model's [N], not about Go: without
